@@ -57,6 +57,7 @@ class Check:
         self._nats = {}
         self.unavailable = []
         self.skipped_confirmations = 0
+        self.paranoid_checked = 0
 
     # -- running
     def run_group(self, name, overlays, jobs, expect_labels=(), witness_replay=True, confirm=None, deadline_s=None):
@@ -89,6 +90,9 @@ class Check:
                 self.inconclusive.append("%s %s%s: unsupported: %s (%d paths)" % (name, r.get("entry"), r.get("args"), k, n))
             if r.get("endcheck_unsat"):
                 self.inconclusive.append("%s %s%s: %d completed paths failed the z3 end check (fast path / solver disagreement)" % (name, r.get("entry"), r.get("args"), r["endcheck_unsat"]))
+            if r.get("paranoid_mismatch"):
+                self.inconclusive.append("%s %s%s: %d byte-domain verdicts disagree with z3 (engine error)" % (name, r.get("entry"), r.get("args"), r["paranoid_mismatch"]))
+            self.paranoid_checked += r.get("paranoid_checked", 0) or 0
             for k, n in (r.get("labels") or {}).items():
                 labels[k] = labels.get(k, 0) + n
         for l in expect_labels:
@@ -215,6 +219,7 @@ class Check:
             "checker_cmd": "./check %s %s" % (self.prop, self.tier),
         }
         cov["unavailable_layers"] = self.unavailable
+        cov["byte_domain_verdicts_rechecked_by_z3"] = self.paranoid_checked
         cov["counterexamples_not_replayed_because_capped"] = self.skipped_confirmations
         cov.update(self.extra_cov)
         if self.unavailable and not self.groups:
